@@ -31,7 +31,9 @@ def graph_attributes_from_molfile_v3000(
 
 
 def _tokenize_lines(lines: list[str]) -> list[list[str]]:
-    lines = _concat_lines_with_dash(lines)
+    # Header block and version line (first four lines) are free text, only
+    # lines of the connection table can be continued with a trailing dash.
+    lines = lines[:4] + _concat_lines_with_dash(lines[4:])
     split_lines = [line.rstrip().split(" ") for line in lines]
 
     return [[value for value in line if value != ""] for line in split_lines]
